@@ -120,4 +120,8 @@ Proof.
   induction p as [|a r IH]; [cbn; ring|].
   rewrite pderiv_cons. cbn [peval pshift2]. rewrite IH. ring.
 Qed.
+Lemma weights_are_basis_all (d : nat) (t : K) : gen_w d t = basis4 d t.
+Proof.
+  destruct (Nat.le_gt_cases d 3) as [H|H]; [apply weights_are_basis; exact H|apply weights_high_order; lia].
+Qed.
 End Proofs.
